@@ -305,6 +305,8 @@ def check(case, acc=None):
         return check_history(case, acc)
     if case['kind'] == 'override':
         return check_override(case, acc)
+    if case['kind'] == 'overlong':
+        return check_overlong(case['v'], case['dt'])[0]
     return check_input(case, acc)
 
 
@@ -388,8 +390,39 @@ def override_cases(draw, cells):
             'ci': draw(st.integers(0, 20))}
 
 
+def check_overlong(v, dt):
+    """one character more than the maximum length of a textual class, offered to STRICT elements of that datatype"""
+    from hl7apy.core import SubComponent, Component
+    from hl7apy.exceptions import HL7apyException
+    cls = T.lib(v).BASE_DATATYPES[dt]
+    mx = (cls('5551234') if dt == 'TN' else cls('a')).max_length
+    if mx is None or mx > 100000:
+        return [], False
+    text = ('5' if dt == 'TN' else 'a') * (mx + 1)
+    out = []
+    for what, fn in (('SubComponent', lambda: SubComponent(datatype=dt, value=text, version=v, validation_level=STRICT)),
+                     ('Component', lambda: setattr(Component(datatype=dt, version=v, validation_level=STRICT), 'value', text))):
+        try:
+            fn()
+            out.append(('C05-strict-holds-over-long-%s-leaf' % dt, 'v%s %s(datatype=%s) under STRICT took %d characters (maximum %d)' % (v, what, dt, mx + 1, mx)))
+        except (HL7apyException, ValueError):
+            pass
+        except Exception as e:
+            out.append(('C05-overlong-raises:%s' % type(e).__name__, 'v%s %s %s: %s' % (v, what, dt, e)))
+    return out, True
+
+
 def run_shard(shard, acc):
     k = shard['kind']
+    if k == 'lengths':
+        for v in T.VERSIONS:
+            for dt in sorted(T.textual_classes(v)):
+                case = {'kind': 'overlong', 'v': v, 'dt': dt}
+                vs, nt = check_overlong(v, dt)
+                for sig, detail in vs:
+                    acc.violation(sig, case, detail)
+                acc.case(None, nt, sample=case, label='over-long-by-one', enumerated=True)
+        return
     if k == 'override':
         def run(case, acc):
             vs = check_override(case, acc)
@@ -418,6 +451,7 @@ def plan(tier, seed):
         shards.append({'kind': 'message', 'cells': mcells[i::(4 if q else 12)], 'seed': seed * 1000 + 100 + i, 'n': 100 if q else 700, 'shrink': not q})
     for i in range(4 if q else 12):
         shards.append({'kind': 'history', 'versions': T.VERSIONS, 'seed': seed * 1000 + 200 + i, 'n': 200 if q else 1500, 'shrink': not q})
+    shards.append({'kind': 'lengths'})
     for i in range(2 if q else 8):
         shards.append({'kind': 'override', 'cells': cells[i::(2 if q else 8)], 'seed': seed * 1000 + 300 + i, 'n': 300 if q else 3000, 'shrink': not q})
     return shards
